@@ -438,6 +438,15 @@ func DefaultExternals() map[string]externalFn {
 		"time.Since": func(fr *frame, args []value) value {
 			return int64(0)
 		},
+		// time.Until(t): an arbitrary duration (environment stub; avoids 64-bit multiplication by 1e9
+		// on symbolic instants, which no installed solver decides)
+		"time.Until": func(fr *frame, args []value) value {
+			if !containsSym(args[0]) {
+				fr.i.skipExternal = fr.fn
+				return callSSA(fr.i, fr.caller, token.NoPos, fr.fn, args, nil)
+			}
+			return symInt{fr.i.freshVar("env:time.Until", 64, "env"), types.Int64}
+		},
 		"(*time.Location).get": func(fr *frame, args []value) value { return args[0] },
 		"time.NewTimer":        func(fr *frame, args []value) value { return fr.i.newTimer(fr.fn, "Timer") },
 		"time.NewTicker":       func(fr *frame, args []value) value { return fr.i.newTimer(fr.fn, "Ticker") },
@@ -527,6 +536,9 @@ func DefaultExternals() map[string]externalFn {
 		},
 	}
 	addAtomics(m)
+	for k, v := range binaryExternals {
+		m[k] = v
+	}
 	return m
 }
 
@@ -887,3 +899,215 @@ func (i *interpreter) syncMap(m value) *omap {
 	}
 	return om
 }
+
+// ---------------------------------------------------------------------------
+// encoding/binary.Size/Read/Write for fixed-size data (no reflection)
+
+func binSize(t types.Type) int {
+	switch u := t.Underlying().(type) {
+	case *types.Basic:
+		switch u.Kind() {
+		case types.Bool, types.Int8, types.Uint8:
+			return 1
+		case types.Int16, types.Uint16:
+			return 2
+		case types.Int32, types.Uint32, types.Float32:
+			return 4
+		case types.Int64, types.Uint64, types.Float64:
+			return 8
+		}
+	case *types.Struct:
+		n := 0
+		for k := 0; k < u.NumFields(); k++ {
+			s := binSize(u.Field(k).Type())
+			if s < 0 {
+				return -1
+			}
+			n += s
+		}
+		return n
+	case *types.Array:
+		s := binSize(u.Elem())
+		if s < 0 {
+			return -1
+		}
+		return s * int(u.Len())
+	case *types.Pointer:
+		return binSize(u.Elem())
+	}
+	return -1
+}
+
+func (i *interpreter) binEncode(v value, t types.Type, little bool, out *[]value) {
+	switch u := t.Underlying().(type) {
+	case *types.Basic:
+		if u.Kind() == types.Bool {
+			if v == true {
+				*out = append(*out, uint8(1))
+			} else if v == false {
+				*out = append(*out, uint8(0))
+			} else {
+				panic(unsupported("binary.Write of symbolic bool"))
+			}
+			return
+		}
+		k, ok := intKind(v)
+		if !ok {
+			panic(unsupported(fmt.Sprintf("binary.Write of %T", v)))
+		}
+		n := kindWidth(k) / 8
+		tv := i.termOf(v)
+		bs := make([]value, n)
+		for b := 0; b < n; b++ {
+			bs[b] = i.mkInt(i.tb.Extract(tv, b*8+7, b*8), types.Uint8)
+		}
+		if !little {
+			for a, b := 0, n-1; a < b; a, b = a+1, b-1 {
+				bs[a], bs[b] = bs[b], bs[a]
+			}
+		}
+		*out = append(*out, bs...)
+	case *types.Struct:
+		st := v.(structure)
+		for k := 0; k < u.NumFields(); k++ {
+			i.binEncode(st[k], u.Field(k).Type(), little, out)
+		}
+	case *types.Array:
+		for _, e := range v.(array) {
+			i.binEncode(e, u.Elem(), little, out)
+		}
+	default:
+		panic(unsupported("binary.Write of " + t.String()))
+	}
+}
+
+func (i *interpreter) binDecode(in []value, pos *int, t types.Type, little bool) value {
+	switch u := t.Underlying().(type) {
+	case *types.Basic:
+		if u.Kind() == types.Bool {
+			b := in[*pos]
+			*pos++
+			return i.boolNot(i.equals(types.Typ[types.Uint8], b, uint8(0)))
+		}
+		n := kindWidth(u.Kind()) / 8
+		bs := in[*pos : *pos+n]
+		*pos += n
+		var acc *Term
+		for b := 0; b < n; b++ {
+			idx := b
+			if little {
+				idx = n - 1 - b
+			}
+			tb := i.termOf(bs[idx])
+			if acc == nil {
+				acc = tb
+			} else {
+				acc = i.tb.Concat(acc, tb)
+			}
+		}
+		return i.mkInt(acc, u.Kind())
+	case *types.Struct:
+		st := make(structure, u.NumFields())
+		for k := 0; k < u.NumFields(); k++ {
+			st[k] = i.binDecode(in, pos, u.Field(k).Type(), little)
+		}
+		return st
+	case *types.Array:
+		a := make(array, u.Len())
+		for k := range a {
+			a[k] = i.binDecode(in, pos, u.Elem(), little)
+		}
+		return a
+	}
+	panic(unsupported("binary.Read into " + t.String()))
+}
+
+func isLittle(order value) bool {
+	itf, ok := order.(iface)
+	if !ok || itf.t == nil {
+		panic(unsupported("binary: nil byte order"))
+	}
+	return strings.Contains(itf.t.String(), "littleEndian")
+}
+
+func (fr *frame) callMethod(recv iface, name string, args ...value) value {
+	m := fr.i.prog.LookupMethod(recv.t, nil, name)
+	if m == nil {
+		panic(unsupported("method " + name + " not found on " + recv.t.String()))
+	}
+	return callSSA(fr.i, fr, token.NoPos, m, append([]value{recv.v}, args...), nil)
+}
+
+func init() {
+	binaryExternals = map[string]externalFn{
+		"encoding/binary.Size": func(fr *frame, args []value) value {
+			itf := args[0].(iface)
+			if sl, ok := itf.v.([]value); ok {
+				if st, ok := itf.t.Underlying().(*types.Slice); ok {
+					return len(sl) * binSize(st.Elem())
+				}
+			}
+			return binSize(itf.t)
+		},
+		"encoding/binary.Write": func(fr *frame, args []value) value {
+			w := args[0].(iface)
+			little := isLittle(args[1])
+			data := args[2].(iface)
+			var out []value
+			switch dv := data.v.(type) {
+			case *value:
+				if dv == nil {
+					panic(nilDeref())
+				}
+				fr.i.binEncode(load(mustDeref(data.t), dv), mustDeref(data.t), little, &out)
+			case []value:
+				et := data.t.Underlying().(*types.Slice).Elem()
+				for _, e := range dv {
+					fr.i.binEncode(e, et, little, &out)
+				}
+			default:
+				fr.i.binEncode(dv, data.t, little, &out)
+			}
+			r := fr.callMethod(w, "Write", out)
+			return r.(tuple)[1]
+		},
+		"encoding/binary.Read": func(fr *frame, args []value) value {
+			r := args[0].(iface)
+			little := isLittle(args[1])
+			data := args[2].(iface)
+			dp, ok := data.v.(*value)
+			if !ok || dp == nil {
+				panic(unsupported("binary.Read into non-pointer"))
+			}
+			t := mustDeref(data.t)
+			n := binSize(t)
+			if n < 0 {
+				panic(unsupported("binary.Read into " + t.String()))
+			}
+			buf := make([]value, n)
+			for k := range buf {
+				buf[k] = uint8(0)
+			}
+			got := 0
+			for got < n {
+				res := fr.callMethod(r, "Read", buf[got:]).(tuple)
+				m := int(asInt64(res[0]))
+				got += m
+				if e := res[1].(iface); e.t != nil {
+					if got < n {
+						return res[1] // io.EOF / ErrUnexpectedEOF
+					}
+					break
+				}
+				if m == 0 {
+					break
+				}
+			}
+			pos := 0
+			store(t, dp, fr.i.binDecode(buf, &pos, t, little))
+			return iface{}
+		},
+	}
+}
+
+var binaryExternals map[string]externalFn
